@@ -16,10 +16,12 @@ from hypothesis import strategies as st
 
 import nifty.cl as ift
 from vlib import Violation, close, require
-from vlib import nx
+from vlib import findings, nx
 from vlib import strat as S
 
 TIMES, ADJ, INV, ADJINV = 1, 2, 4, 8
+# tags of recorded (unrepaired) findings: generators exclude these regions by construction
+KNOWN = findings.known_tags("C02")
 
 
 # ------------------------------------------------------------------ spaces
@@ -338,7 +340,7 @@ def check_domains(op, exp_dom, exp_tgt):
 
 
 def verify(op, ref, seed, *, kind="C", tol=1e-10, exp_dom=None, exp_tgt=None, exp_cap=None,
-           real_in=True, scale=None, check_def=True, real_only=False):
+           real_in=True, scale=None, check_def=True, real_only=False, check_adj=True):
     """generic C02 oracle.
 
     kind "C": complex-linear; "R": only real-linear, complex fields in and out (R^{2N} representation);
@@ -385,7 +387,8 @@ def verify(op, ref, seed, *, kind="C", tol=1e-10, exp_dom=None, exp_tgt=None, ex
     if check_def:
         close(T, Mref, "definition", tol=tol, scale=sc)
     A = dense(ADJ)
-    close(A, H(T), "adjoint", tol=tol, scale=sc)
+    if check_adj:
+        close(A, H(T), "adjoint", tol=tol, scale=sc)
     if cap & INV:
         require(T.shape[0] == T.shape[1], "inverse_nonsquare", f"{T.shape}")
         I = dense(INV)
@@ -422,7 +425,7 @@ def verify(op, ref, seed, *, kind="C", tol=1e-10, exp_dom=None, exp_tgt=None, ex
               scale=sc * 4 * max(1, n_in))
         yr = rvec(rng, n_out, False)
         z = nx.apply_flat(op, yr, ADJ, dtype=np.float64)
-        close(np.asarray(z, dtype=np.complex128), H(T) @ yr, "real_input_adjoint", tol=tol,
+        close(np.asarray(z, dtype=np.complex128), (H(T) if check_adj else A) @ yr, "real_input_adjoint", tol=tol,
               scale=sc * 4 * max(1, n_out))
     elif real_in and real_rep:
         xr = rvec(rng, n_in, False)
